@@ -129,12 +129,18 @@ def decision_table(ctx, fn, max_visits=1, full=None):
                     writes.append('%s.%s = %s' % (fn.names.get(key[0], 'arg%d' % key[0]), '.'.join(fields), S(v)[:80]))
         row = {'conds': conds, 'checks': checks, 'effects': effects + sorted(writes), 'out': out, 'value': val}
         if full:
-            tr = []
+            tr, pure = [], set()
             for e in p.events:
                 if e[0] == 'call':
                     a = ', '.join(S(x)[:90] for x in e[2])
-                    tr.append('%s(%s)' % (e[1].split('::')[-1] if not e[1].startswith('<') else e[1].split('>::')[-1], a[:240]))
-            row['trace'] = tr
+                    txt = '%s(%s)' % (e[1].split('::')[-1] if not e[1].startswith('<') else e[1].split('>::')[-1], a[:240])
+                    if len(e) > 6 and e[6]:
+                        tr.append(txt)
+                    else:
+                        pure.add(txt)
+            # effectful calls (a `&mut` argument or a unit result) in order, one entry per call; value-only calls as a set:
+            # evaluating `x.get()` once into a local or at every use, before or after `y.len()`, is the same computation
+            row['trace'] = tr + ['~' + x for x in sorted(pure)]
             st = {}
             for loc, v in p.env.items():
                 if isinstance(loc, int) and loc in fn.names:
@@ -160,6 +166,9 @@ GUARD_FIELDS = ('conds', 'checks', 'out', 'effects')
 
 
 def row_key(r, fields=ALL_FIELDS):
+    r = dict(r)
+    # conditions are pure tests: compared as a set (order of independent tests and repeated tests do not matter)
+    r['conds'] = sorted(set(r.get('conds', [])))
     return json.dumps([r.get(f, {} if f == 'state' else ([] if f in ('conds', 'checks', 'effects', 'trace') else '')) for f in ALL_FIELDS if f in fields] + [[f for f in ALL_FIELDS if f in fields]], ensure_ascii=False, sort_keys=True)
 
 
@@ -203,6 +212,19 @@ def compare(ctx, rid, paths, table, what, fields=ALL_FIELDS, rowsel=None):
     for path in paths:
         fn = fx.F.get(path)
         frozen = table.get(path)
+        if fn is None and '{closure#' in path and frozen is not None:
+            # a closure moved with the code around it (extracted helper, closure numbering): accept a closure that did not
+            # exist in the reviewed tree and has exactly the reviewed rows
+            known = (getattr(fx, 'reviewed_fns', None) or {}).get('simfony', set())
+            want = sorted(row_key(r, fields) for r in frozen['rows'])
+            for q, qf in fx.F.items():
+                if '{closure#' in q and q not in known and not qf.macro:
+                    if sorted(row_key(r, fields) for r in decision_table(ctx, qf, frozen.get('max_visits', 1), bool(FULL.match(path)))) == want:
+                        fn = qf
+                        break
+            if fn is not None:
+                ctx.ob(rid, 'table:' + path, True, '%s: closure found as %s with the reviewed rows' % (what, fn.path), fn.where())
+                continue
         if fn is None:
             ctx.ob(rid, 'fn-missing:' + path, False, 'front-end function listed in the guard table no longer exists', None)
             continue
@@ -217,6 +239,10 @@ def compare(ctx, rid, paths, table, what, fields=ALL_FIELDS, rowsel=None):
             frozen_rows = [r for r in frozen_rows if rowsel(path, r)]
             if not frozen_rows:
                 ctx.ob(rid, 'rows-selected:' + path, False, 'row selection matches reviewed rows', fn.where(), 'no reviewed row selected')
+        if frozen.get('max_visits', 1) == 1:
+            # every block is visited once: a path that takes two different outcomes of one tested value is infeasible
+            cur = [r for r in cur if not _contradictory(r)]
+            frozen_rows = [r for r in frozen_rows if not _contradictory(r)]
         n += len(cur)
         a = {}
         for r in cur:
@@ -234,6 +260,16 @@ def compare(ctx, rid, paths, table, what, fields=ALL_FIELDS, rowsel=None):
             ctx.ob(rid, 'row-new:%s:%s' % (path, dict(zip(m[-1], m[:-1])).get('out')), False, 'decision row not in the reviewed table (new or weakened condition)', fn.where(),
                    _fmt_row(m))
     return n
+
+
+def _contradictory(r):
+    seen = {}
+    for c in r.get('conds', []):
+        t, _, lab = c.rpartition('=')
+        if t in seen and seen[t] != lab and '|' not in lab and '|' not in seen[t] and not lab.startswith('!') and not seen[t].startswith('!'):
+            return True
+        seen.setdefault(t, lab)
+    return False
 
 
 def _fmt_row(m):
